@@ -6,7 +6,8 @@ use std::collections::HashMap;
 #[cfg(not(similari_verif))]
 use std::sync::{Arc, Mutex};
 #[cfg(similari_verif)]
-use similari_verif_rt::sync::{Arc, Mutex};
+#[allow(unused_imports)]
+use similari_verif_rt::sync::*;
 
 pub type BatchRecords<T> = HashMap<u64, Vec<T>>;
 pub type SceneTracks = (u64, Vec<SortTrack>);
